@@ -31,7 +31,7 @@ CLAIMED = {
  "C05": ("proof", "Relational (two-run) obligations on the real code: histories of two samples agreeing in the first k draws agree in the first k "
          "entries; truncation leaves k-1 entries unchanged and the k-th equal or 0 when the total exceeds N t; every shipped estimator/bet entry j "
          "is a function of x_0..x_{j-1}. Unbounded in n via induction lemmas on ghost running sums/products.",
-         "exact-real float model; numpy axioms; estimator interface for the abstract-estimator runs proved per shipped estimator", "§4.C05"),
+         "exact-real float model; numpy axioms; estimator interface for the abstract-estimator runs proved per shipped estimator; the Kaplan and SPRT tests are covered through their product-form postconditions (entry j pinned to a function of the first j draws) and, like every other test x estimator / bet, by the BOUNDED native stand-in nonneg_nonanticipation (samples over {0, u/2, u} up to length 4-5, every cut point; never counted as proved)", "§4.C05"),
  "C06": ("other", "Range 0 <= B <= 2/(2-v/u) and u proved per symbolic pair; mvrs_to_data proved for an UNBOUNDED number of sampled cards (symbolic record "
          "lists: a card contributes iff no style information or its CVR lists the contest and its sample number is within the threshold; each "
          "value = B(mvr_i, cvr_i) in [0,u]; polling: assort(mvr_i) in [0,u_assorter]) and, kept, for lists of <= 3 symbolic pairs (all presence patterns); set_p_values proved to install u before each test call for bounded contest/assertion shapes; "
